@@ -392,3 +392,22 @@ def write_evidence(pid, ev):
     os.makedirs(d, exist_ok=True)
     with open(os.path.join(d, pid + ".json"), "w") as f:
         json.dump(ev, f, indent=1, sort_keys=True)
+
+
+HOOK_NAMES = ["knuth_norm_forced_digit", "knuth_norm_addback", "knuth_addback", "knuth_forced_digit",
+              "knuth_shift0_path", "knuth_shifted_path", "div_2x1_decrement", "div_2x1_increment",
+              "div_3x2_decrement", "div_3x2_increment", "recip2_adj1", "recip2_adj1b", "recip2_adj2",
+              "recip2_adj2b"]
+
+
+def hook_counters(binname, lines, profile="release"):
+    """Runs all lines in ONE process followed by `__hooks` and returns {hook name: count} as
+    counted by the cfg(recmo_uint_verif) counters inside the crate."""
+    exe = os.path.join(TARGET, profile, binname)
+    p = subprocess.run([exe], input="\n".join(lines + ["__hooks 0"]) + "\n", stdout=subprocess.PIPE,
+                       stderr=subprocess.PIPE, text=True)
+    out = p.stdout.splitlines()
+    if not out or not out[-1].startswith("L:"):
+        return {}
+    vals = [int(x, 16) for x in out[-1][2:].split(",") if x]
+    return {n: vals[i] for i, n in enumerate(HOOK_NAMES) if i < len(vals)}
